@@ -279,6 +279,13 @@ def value_facts(target: ast.AST, value: ast.expr, st: "State") -> set[Fact]:
     return set()
 
 
+def _non_optional_annotation(ann: ast.expr) -> bool:
+    txt = unparse(ann)
+    if isinstance(ann, ast.Constant) and isinstance(ann.value, str):
+        txt = ann.value
+    return not any(w in txt for w in ("Optional", "None", "Any", "object")) and txt not in ("", "T")
+
+
 def const_truth(expr: ast.expr) -> Optional[bool]:
     if isinstance(expr, ast.Constant):
         return bool(expr.value)
@@ -464,6 +471,8 @@ class FlowAnalysis:
             if cur is None:
                 return None
             vf = value_facts(s.target, s.value, cur) if s.value is not None else set()
+            if s.value is not None and isinstance(s.target, ast.Name) and _non_optional_annotation(s.annotation):
+                vf = set(vf) | {(False, f"{s.target.id} is None")}  # declared non-Optional: taken at its word
             cur = self._assign_kill([s.target], cur)
             return cur.add(vf) if vf else cur
         if isinstance(s, ast.AugAssign):
